@@ -120,21 +120,24 @@ static void fenv_cases() {
 }
 // real-to-torus conversion is periodic modulo 1 for every real the type can carry with a fractional part: d = t32tod(x) +- 2^e, e up to 50;
 // expected value computed from the double's integer mantissa (trunc(d*2^32) mod 2^32), independent of the library's arithmetic
-static int32_t dtot32_exact(double d) {
-    if (d == 0) return 0; int ex; double m = frexp(d, &ex); int64_t mant = (int64_t)ldexp(m, 53); int shift = ex - 53 + 32; bool neg = mant < 0; ref::u128 a = (ref::u128)(uint64_t)(neg ? -mant : mant);
-    uint32_t r; if (shift >= 0) r = shift >= 64 ? 0u : (uint32_t)(uint64_t)(a << shift); else r = -shift >= 64 ? 0u : (uint32_t)(uint64_t)(a >> -shift);
-    return (int32_t)(neg ? 0u - r : r);
+// the two integers adjacent to d*2^32 (equal when d*2^32 is an integer), modulo 2^32: whether the conversion truncates, floors or rounds to nearest is
+// not part of the contract - only that the result is the real number d modulo 1, to the unit
+static void dtot32_exact(double d, int32_t *lo, int32_t *hi) {
+    if (d == 0) { *lo = *hi = 0; return; } int ex; double m = frexp(d, &ex); int64_t mant = (int64_t)ldexp(m, 53); int shift = ex - 53 + 32; bool neg = mant < 0; ref::u128 a = (ref::u128)(uint64_t)(neg ? -mant : mant);
+    uint32_t fl, ce; if (shift >= 0) { fl = ce = shift >= 64 ? 0u : (uint32_t)(uint64_t)(a << shift); } else { int sh = -shift; ref::u128 q = sh >= 64 ? 0 : a >> sh; bool exact = sh < 64 && (q << sh) == a; fl = (uint32_t)(uint64_t)q; ce = exact ? fl : fl + 1; }
+    if (neg) { uint32_t t = 0u - ce; ce = 0u - fl; fl = t; }   // floor <= value <= ceil also for negative values
+    *lo = (int32_t)fl; *hi = (int32_t)ce;
 }
 static void periodic_large() {
     for (int e = 0; e <= 50; e++) {
         std::string key = fmt("dtot32-large/e=%d", e); if (!take(key)) continue; if (deadline()) return; current(key); bool ok = true;
         for (uint32_t i = 0; i < 8192 && ok; i++) { uint32_t x = i < 64 ? (i < 32 ? (1u << i) : 0u - (1u << (i - 32))) : i * 524309u + 77u;
-            for (int sgn = -1; sgn <= 1 && ok; sgn += 2) for (int mult = 1; mult <= 3 && ok; mult += 2) { double d = t32tod((Torus32)x) + sgn * mult * ldexp(1.0, e); Torus32 got = dtot32(d), want = dtot32_exact(d);
-                if (e <= 19 && want != (Torus32)x) { violation(key, fmt("harness self-check: exact conversion of t32tod(0x%08x)%+g gives 0x%08x", x, sgn * mult * ldexp(1.0, e), (uint32_t)want)); ok = false; }
-                if (got != want) { violation(key, fmt("dtot32(t32tod(0x%08x) %c %d*2^%d) = 0x%08x, the real number %.17g is 0x%08x modulo 1", x, sgn < 0 ? '-' : '+', mult, e, (uint32_t)got, d, (uint32_t)want)); ok = false; } } }
+            for (int sgn = -1; sgn <= 1 && ok; sgn += 2) for (int mult = 1; mult <= 3 && ok; mult += 2) { double d = t32tod((Torus32)x) + sgn * mult * ldexp(1.0, e); Torus32 got = dtot32(d), lo, hi; dtot32_exact(d, &lo, &hi);
+                if (e <= 19 && (lo != (Torus32)x || hi != (Torus32)x)) { violation(key, fmt("harness self-check: exact conversion of t32tod(0x%08x)%+g gives 0x%08x..0x%08x", x, sgn * mult * ldexp(1.0, e), (uint32_t)lo, (uint32_t)hi)); ok = false; }
+                if (got != lo && got != hi) { violation(key, fmt("dtot32(t32tod(0x%08x) %c %d*2^%d) = 0x%08x, the real number %.17g is 0x%08x..0x%08x modulo 1", x, sgn < 0 ? '-' : '+', mult, e, (uint32_t)got, d, (uint32_t)lo, (uint32_t)hi)); ok = false; } } }
         eval(4 * 8192); nontrivial(4 * 8192); outcome(mix(0xD7, e));
     }
-    sample("dtot32-large/e=40: dtot32(t32tod(x) +- {1,3}*2^40) for 8192 x equals trunc(d*2^32) mod 2^32 computed from the mantissa of d (periodicity modulo 1 far from the origin)");
+    sample("dtot32-large/e=40: dtot32(t32tod(x) +- {1,3}*2^40) for 8192 x is one of the two integers adjacent to d*2^32 (mod 2^32) computed from the mantissa of d: periodicity modulo 1 far from the origin, exact wherever d*2^32 is an integer");
 }
 int main(int argc, char **argv) {
     init(argc, argv);
